@@ -545,7 +545,7 @@ func (m *Model) prelude() string {
 	var sb strings.Builder
 	sb.WriteString(`(set-option :smt.mbqi false)
 (set-option :auto_config false)
-(define-sort F64 () (_ FloatingPoint 11 53))
+@@F64SORT@@
 (declare-sort Str 0)
 (declare-sort Opaque 0)
 (declare-const opaque0 Opaque)
@@ -554,7 +554,7 @@ func (m *Model) prelude() string {
 (declare-fun selem (Addr Int Int) Addr)
 (assert (forall ((b Addr) (o Int) (k Int)) (! (= (selem b o k) (Elem b (+ o k))) :pattern ((selem b o k)))))
 (declare-datatypes ((Fn 0)) (((FNil) (FStatic (fs_id Int)) (FClos (fc_id Int) (fc_env Int)))))
-(define-fun fzero () F64 (_ +zero 11 53))
+@@F64OPS@@
 (declare-fun slen (Str) Int)
 (declare-fun sat (Str Int) Int)
 (declare-fun ssub (Str Int Int) Str)
@@ -617,7 +617,7 @@ func (m *Model) prelude() string {
 // boxed structs are stored through uninterpreted projection functions.
 func (m *Model) preludeAny() string {
 	var sb strings.Builder
-	sb.WriteString(`(declare-datatypes ((Any 0)) (((ANil) (APtr (aptr_t Int) (aptr_a Addr)) (AStr (astr_t Int) (astr_v Str)) (ABool (abool_t Int) (abool_v Bool)) (AF64 (af64_t Int) (af64_v (_ FloatingPoint 11 53))) (AInt (aint_t Int) (aint_v Int)) (ASlice (asl_t Int) (asl_v Slice)) (AMap (amap_t Int) (amap_v Addr)) (AFn (afn_t Int) (afn_v Fn)) (ABox (abox_t Int) (abox_id Int)))))
+	sb.WriteString(`(declare-datatypes ((Any 0)) (((ANil) (APtr (aptr_t Int) (aptr_a Addr)) (AStr (astr_t Int) (astr_v Str)) (ABool (abool_t Int) (abool_v Bool)) (AF64 (af64_t Int) (af64_v F64)) (AInt (aint_t Int) (aint_v Int)) (ASlice (asl_t Int) (asl_v Slice)) (AMap (amap_t Int) (amap_v Addr)) (AFn (afn_t Int) (afn_v Fn)) (ABox (abox_t Int) (abox_id Int)))))
 `)
 	return sb.String()
 }
@@ -625,7 +625,7 @@ func (m *Model) preludeAny() string {
 func (m *Model) fullPrelude() string {
 	p := m.prelude()
 	// insert Any right after Fn datatype declaration
-	marker := "(define-fun fzero"
+	marker := "@@F64OPS@@"
 	i := strings.Index(p, marker)
 	out := p[:i] + m.preludeAny() + p[i:]
 	var sb strings.Builder
@@ -647,15 +647,113 @@ func selemT(s, k string) string {
 
 // ---------------------------------------------------------------- constants
 
+// float64 literals are named constants fl_<bits>; their meaning depends on the float encoding used
+// for a query (uninterpreted with distinctness facts, or IEEE FloatingPoint), see floatPrelude.
+var flits = map[string]float64{}
+
 func f64lit(f float64) string {
 	if f == 0 && !math.Signbit(f) {
 		return "fzero"
 	}
+	name := fmt.Sprintf("fl_%016x", math.Float64bits(f))
+	flits[name] = f
+	return name
+}
+
+func fpTerm(f float64) string {
 	b := math.Float64bits(f)
 	sign := b >> 63
 	exp := (b >> 52) & 0x7ff
 	man := b & ((1 << 52) - 1)
 	return fmt.Sprintf("(fp #b%d #b%011b #x%013x)", sign, exp, man)
+}
+
+// floatPrelude: the two encodings of float64.  "uf": an uninterpreted sort with uninterpreted
+// operations and a few sound IEEE facts (fast; a proof found here holds for real doubles because every
+// fact is an IEEE theorem).  "fp": SMT FloatingPoint 11 53 (exact, slow) -- tried when "uf" fails.
+func floatPrelude(mode string) (sortDecl, ops string) {
+	var sb strings.Builder
+	names := make([]string, 0, len(flits))
+	for n := range flits {
+		names = append(names, n)
+	}
+	sort.Strings(names)
+	if mode == "fp" {
+		sb.WriteString(`(define-fun fzero () F64 (_ +zero 11 53))
+(define-fun fadd ((a F64) (b F64)) F64 (fp.add RNE a b))
+(define-fun fsub ((a F64) (b F64)) F64 (fp.sub RNE a b))
+(define-fun fmul ((a F64) (b F64)) F64 (fp.mul RNE a b))
+(define-fun fdiv ((a F64) (b F64)) F64 (fp.div RNE a b))
+(define-fun fneg ((a F64)) F64 (fp.neg a))
+(define-fun feq ((a F64) (b F64)) Bool (fp.eq a b))
+(define-fun flt ((a F64) (b F64)) Bool (fp.lt a b))
+(define-fun fle ((a F64) (b F64)) Bool (fp.leq a b))
+(define-fun fgt ((a F64) (b F64)) Bool (fp.gt a b))
+(define-fun fge ((a F64) (b F64)) Bool (fp.geq a b))
+(define-fun fisnan ((a F64)) Bool (fp.isNaN a))
+(define-fun fisinf ((a F64)) Bool (fp.isInfinite a))
+(define-fun frtn ((a F64)) F64 (fp.roundToIntegral RTN a))
+(define-fun frtp ((a F64)) F64 (fp.roundToIntegral RTP a))
+(define-fun frna ((a F64)) F64 (fp.roundToIntegral RNA a))
+`)
+		for _, n := range names {
+			fmt.Fprintf(&sb, "(define-fun %s () F64 %s)\n", n, fpTerm(flits[n]))
+		}
+		return "(define-sort F64 () (_ FloatingPoint 11 53))", sb.String()
+	}
+	sb.WriteString(`(declare-const fzero F64)
+(declare-fun fadd (F64 F64) F64)
+(declare-fun fsub (F64 F64) F64)
+(declare-fun fmul (F64 F64) F64)
+(declare-fun fdiv (F64 F64) F64)
+(declare-fun fneg (F64) F64)
+(declare-fun feq (F64 F64) Bool)
+(declare-fun flt (F64 F64) Bool)
+(declare-fun fle (F64 F64) Bool)
+(define-fun fgt ((a F64) (b F64)) Bool (flt b a))
+(define-fun fge ((a F64) (b F64)) Bool (fle b a))
+(declare-fun fisnan (F64) Bool)
+(declare-fun fisinf (F64) Bool)
+(declare-fun frtn (F64) F64)
+(declare-fun frtp (F64) F64)
+(declare-fun frna (F64) F64)
+(assert (forall ((a F64) (b F64)) (! (=> (flt a b) (and (not (flt b a)) (not (feq a b)) (fle a b))) :pattern ((flt a b)))))
+(assert (forall ((a F64) (b F64)) (! (= (feq a b) (feq b a)) :pattern ((feq a b)))))
+(assert (forall ((a F64) (b F64)) (! (=> (feq a b) (and (fle a b) (fle b a))) :pattern ((feq a b)))))
+(assert (forall ((a F64)) (! (= (feq a a) (not (fisnan a))) :pattern ((feq a a)))))
+(assert (not (fisnan fzero)))
+`)
+	all := append([]string{"fzero"}, names...)
+	val := func(n string) float64 {
+		if n == "fzero" {
+			return 0
+		}
+		return flits[n]
+	}
+	for _, n := range names {
+		fmt.Fprintf(&sb, "(declare-const %s F64)\n", n)
+		if math.IsNaN(flits[n]) {
+			fmt.Fprintf(&sb, "(assert (fisnan %s))\n", n)
+		} else {
+			fmt.Fprintf(&sb, "(assert (not (fisnan %s)))\n", n)
+		}
+	}
+	for i, a := range all {
+		for _, b := range all[i+1:] {
+			fmt.Fprintf(&sb, "(assert (not (= %s %s)))\n", a, b)
+			va, vb := val(a), val(b)
+			switch {
+			case math.IsNaN(va) || math.IsNaN(vb):
+			case va < vb:
+				fmt.Fprintf(&sb, "(assert (flt %s %s))\n", a, b)
+			case vb < va:
+				fmt.Fprintf(&sb, "(assert (flt %s %s))\n", b, a)
+			default:
+				fmt.Fprintf(&sb, "(assert (feq %s %s))\n", a, b)
+			}
+		}
+	}
+	return "(declare-sort F64 0)", sb.String()
 }
 
 func intLit(s string) string {
